@@ -1,5 +1,12 @@
 package main
 
+import (
+	"encoding/json"
+	"fmt"
+	"os"
+	"strings"
+)
+
 // Replay of solver counterexamples against the real code (drivers are
 // in-package Go tests injected with `go test -overlay`).
 
@@ -12,3 +19,48 @@ func tryReplay(w *World, verif, prop string, ob *Obligation) *ReplayOutcome {
 }
 
 var replayDrivers = map[string]func(w *World, verif, prop string, ob *Obligation) *ReplayOutcome{}
+
+// hv replay <path> : re-examine a recorded violation. Prints the failed
+// obligation, where it is anchored, the recorded counterexample (if the solver
+// gave one) and re-runs the recorded verification condition; exit 1 while the
+// obligation is still not discharged.
+func cmdReplay(args []string) {
+	if len(args) < 1 {
+		fmt.Fprintln(os.Stderr, "usage: hv replay <replay.json>")
+		os.Exit(2)
+	}
+	data, err := os.ReadFile(args[0])
+	if err != nil {
+		fmt.Fprintln(os.Stderr, err)
+		os.Exit(2)
+	}
+	var rf ReplayFile
+	if err := json.Unmarshal(data, &rf); err != nil {
+		fmt.Fprintln(os.Stderr, "bad replay file:", err)
+		os.Exit(2)
+	}
+	fmt.Printf("property:   %s\nobligation: %s\nfunction:   %s\nposition:   %s\npath:       %s\nrecorded:   %s by %s\n",
+		rf.Property, rf.Obligation, rf.Function, rf.Position, strings.Join(rf.Path, " "), rf.Status, rf.Solver)
+	if rf.Model != "" {
+		fmt.Println("model (arguments, loop variables):")
+		fmt.Println(rf.Model)
+	}
+	if rf.Replay != nil {
+		fmt.Printf("replay on the real code: driver=%s input=%s observed=%s reproduced=%v\n", rf.Replay.Driver, rf.Replay.Input, rf.Replay.Observed, rf.Replay.Reproduced)
+	} else {
+		fmt.Println("replay on the real code: no-failing-input-found (" + rf.Note + ")")
+	}
+	q, err := os.ReadFile(rf.QueryFile)
+	if err != nil {
+		fmt.Println("recorded query missing:", err)
+		os.Exit(1)
+	}
+	r := Solve(string(q), 20, false)
+	fmt.Printf("re-running the recorded verification condition: %s (%s, %.1fs)\n", r.Status, r.Solver, r.Secs)
+	if r.Status == "unsat" {
+		fmt.Println("the recorded condition is now discharged")
+		os.Exit(0)
+	}
+	fmt.Printf("VIOLATION property=%s replay=%s\n", rf.Property, args[0])
+	os.Exit(1)
+}
